@@ -1,5 +1,55 @@
-(* Properties_C13.v — placeholder until SessionProofs lands: constants only *)
-From Coq Require Import ZArith.
-From Srtp Require Import Constants.
-Theorem c13_placeholder : seq_num_median_c = 32768%Z.
-Proof. reflexivity. Qed.
+(* Properties_C13.v — rejected input leaves the receiving session unchanged (C13).
+   Statements only; proofs in RejectProofs.v.  `unprotect` / `unprotect_rtcp` are the
+   models (Rtp.v, Rtcp.v) of srtp_unprotect / srtp_unprotect_rtcp, tied to srtp/srtp.c by the
+   correspondence runs; `world` carries the session (stream table with every stream's replay
+   windows, ROC, pending ROC, SRTCP index, direction, key budgets), the heap counters and the
+   event log. *)
+From Coq Require Import NArith ZArith List Bool.
+From Srtp Require Import Util Constants World Rtp Rtcp RejectProofs.
+Local Open Scope Z_scope.
+
+(* whatever the packet bytes, the session state and the stream table: a call that returns
+   no_ctx / bad_mki / auth_fail / replay_fail / replay_old / pkt_idx_old / cant_check /
+   buffer_small leaves session, heap (live blocks, allocation attempts) and event log as they were *)
+Theorem srtp_reject_is_noop : forall w w' st,
+  unprotect w = (w', inr st) -> rejected st ->
+  w_s w' = w_s w /\ w_h w' = w_h w /\ w_ev w' = w_ev w.
+Proof. exact unprotect_reject_noop. Qed.
+Print Assumptions srtp_reject_is_noop.
+
+Theorem srtcp_reject_is_noop : forall w w' st,
+  unprotect_rtcp w = (w', inr st) -> rejected st ->
+  w_s w' = w_s w /\ w_h w' = w_h w /\ w_ev w' = w_ev w.
+Proof. exact unprotect_rtcp_reject_noop. Qed.
+Print Assumptions srtcp_reject_is_noop.
+
+(* malformed packets are refused before anything else happens: nothing at all changes *)
+Theorem srtp_malformed_is_noop : forall w,
+  let b := w_b w in
+  validate_rtp (take (zn (b_len b)) (cur_src b)) (b_len b) <> st_ok ->
+  unprotect w = (w, inr (validate_rtp (take (zn (b_len b)) (cur_src b)) (b_len b))).
+Proof. exact unprotect_malformed. Qed.
+Print Assumptions srtp_malformed_is_noop.
+
+Theorem srtcp_short_is_noop : forall w,
+  b_len (w_b w) < octets_in_rtcp_header_c + trailer_len ->
+  unprotect_rtcp w = (w, inr st_bad_param).
+Proof. exact unprotect_rtcp_short. Qed.
+Print Assumptions srtcp_short_is_noop.
+
+(* the mechanism: the whole pre-authentication phase never writes the session *)
+Theorem pre_auth_phase_is_read_only :
+  (forall w, let '(w', _) := unprotect_pre w in w_s w' = w_s w /\ w_h w' = w_h w /\ w_ev w' = w_ev w) /\
+  (forall w, let '(w', _) := unprotect_rtcp_pre w in w_s w' = w_s w /\ w_h w' = w_h w /\ w_ev w' = w_ev w).
+Proof. exact (conj sp_unprotect_pre sp_unprotect_rtcp_pre). Qed.
+Print Assumptions pre_auth_phase_is_read_only.
+
+(* non-vacuity: a packet for an unknown SSRC on a session without wildcard is rejected with no_ctx *)
+Example reject_example :
+  let w := {| w_s := {| ss_template := None; ss_list := []; ss_cap := 2 |};
+              w_b := {| b_src := []; b_dst := repeat 128%N 1 ++ repeat 0%N 23; b_alias := true;
+                        b_len := 24; b_cap := 24; b_oob := false |};
+              w_ev := []; w_iv := [];
+              w_h := {| h_live := 0; h_att := 0; h_fail := 0; h_frees := 0; h_dirty := 0 |} |} in
+  snd (unprotect w) = inr st_no_ctx /\ rejected st_no_ctx.
+Proof. split; [vm_compute; reflexivity | unfold rejected; tauto]. Qed.
